@@ -140,6 +140,12 @@ def run_tlc(module, cfg, cwd, workers=4, simulate=None, depth=None, env=None, ti
             r.violation = "temporal"
             in_trace = True
             continue
+        m = re.match(r"^Error: Temporal property (\w+) was violated", line)
+        if m:
+            r.violation = "temporal"
+            r.violated_name = m.group(1)
+            in_trace = True
+            continue
         if line.startswith("Error: Deadlock reached"):
             r.violation = "deadlock"
             in_trace = True
@@ -194,6 +200,15 @@ def build_harness(bins=None, tokio=False, jobs=None):
     fcntl.flock(lockf, fcntl.LOCK_EX)
     try:
         cmd = ["cargo", "build", "--release", "--offline", "-q"]
+        alt = os.environ.get("VERIF_REPO")
+        target = os.path.join(d, "target")
+        if alt and os.path.abspath(alt) != "/repo":
+            # development aid: build against another checkout (a scratch worktree with a seeded change) without
+            # touching /repo; cargo's `paths` override replaces the path dependencies by name
+            crates = ["humphrey", "humphrey-ws", "humphrey-json", "humphrey-json-derive", "humphrey-auth", "humphrey-server"]
+            paths = ",".join('"%s"' % os.path.join(os.path.abspath(alt), c) for c in crates)
+            target = os.path.join(WORK, "target-alt" + ("-tokio" if tokio else ""))
+            cmd += ["--config", "paths=[%s]" % paths, "--target-dir", target]
         if bins:
             for b in bins:
                 cmd += ["--bin", b]
@@ -205,7 +220,7 @@ def build_harness(bins=None, tokio=False, jobs=None):
     finally:
         fcntl.flock(lockf, fcntl.LOCK_UN)
         lockf.close()
-    return os.path.join(d, "target", "release")
+    return os.path.join(target, "release")
 
 
 def run_bin(path, args, stdin_data=None, timeout=1800, env=None, cwd=None):
